@@ -7,6 +7,35 @@ HERE = os.path.dirname(os.path.dirname(os.path.abspath(__file__)))
 
 # id -> (technique, level text, level note, design ref)
 CHECKS = {
+    "C01": ("property-based round-trip testing (Hypothesis): serialize -> import through every entry point -> "
+            "compare canonical content; re-serialisation read by an independent lxml/json reader",
+            "Generated raw property graphs with adversarial text/int values (and, Domain B, models built by generated "
+            "topology programs) are serialized to GraphML and JSON node-link and re-imported through all entry points "
+            "on both store flavours; content, types, GraphID stamping, label markup, validation and idempotence are "
+            "compared. Exploration within the stated value alphabet and sizes.",
+            "Trusts lxml/json as independent readers and the harness' canonical snapshot (storage.extract_graph).",
+            "DESIGN.md §3 C01"),
+    "C03": ("property-based testing (Hypothesis) of encode/decode round trips, fixpoints, unknown-key tolerance, "
+            "copy-with-changes purity and finalisation, per codec class",
+            "Tens of thousands of generated values per run over 19 codec classes (all fields, scalar/list forms, "
+            "zero/false/empty/boundary values, unknown keys injected) against field-wise equality and text fixpoint "
+            "oracles. Exploration.",
+            "Trusts json and the field-wise canonicalisation in the checker.",
+            "DESIGN.md §3 C03"),
+    "C12": ("property-based testing (Hypothesis): delegation-set round trips and rejection probes, pool regrouping "
+            "round trip, and annotation of generated substrate models read back",
+            "Generated delegation sets (all formats, label/capacity details), pool families (k pools x defining node x "
+            "reference sets) and small substrates; round trip, exact intermediate form and rejection of ill-typed "
+            "input are asserted. Exploration.",
+            "Trusts the checker's structural equality on Delegations/Pools.",
+            "DESIGN.md §3 C12"),
+    "C18": ("exhaustive enumeration of the request grid and catalogue x argument shapes against a brute-force Pareto "
+            "oracle and the catalogue JSON, plus Hypothesis-generated requests",
+            "Every (core, ram, disk) request on the grid spanned by the catalogue values +-1 (31 824 requests) and every "
+            "catalogue entry x naming/id/label argument combination is enumerated completely in both tiers; random "
+            "requests beyond the grid are sampled. Exhaustive over the stated finite grid.",
+            "Trusts the checker's independent reading of instance_sizes.json / component_catalog.json.",
+            "DESIGN.md §3 C18"),
     "C04": ("stateful property-based testing (Hypothesis-generated operation histories) against an executable "
             "reference model of the graph store",
             "Generated histories of store operations (imports in both text formats through all four entry points, "
